@@ -407,10 +407,13 @@ def main(args):
     from vlib import pool
     from contracts import lr1_table
     n0 = len(run.obligations)
-    pool.run_targets(run, "contracts.lr1_table", ["action_step", "parse_step", "items_step", "parallel_goto", "first", "seed_firsts_round"])
+    pool.run_targets(run, "contracts.lr1_table", ["action_step", "parse_step", "items_step", "parallel_goto", "first", "seed_firsts_round", "closure_of_item"])
     run.function("compiler.front_end.lr1.Grammar._first", "pyvc: FIRST of every symbol string of length <= 3 over every combination of FIRST tables (subsets of {a, b, epsilon}) equals the textbook definition")
     run.function("compiler.front_end.lr1.Grammar._compute_seed_firsts", "pyvc: one round of its fixed-point loop from every starting table over a small grammar adds exactly FIRST(rhs) of every production and stops iff nothing was added "
                  "(least fixed point by Kleene iteration: paper step; cross-checked by the bounded FIRST-is-the-least-fixed-point clause)")
+    run.function("compiler.front_end.lr1.Grammar._closure_of_item", "pyvc: body executed on ghost grammar objects (six structurally different grammars incl. indirectly nullable tails; every item as root; memo tables empty / "
+                 "partly / fully filled, and as left behind by an earlier call on every other non-trivial root): result and memo entry == the least closed set over the callee contract of _first; earlier memo entries unchanged; "
+                 "the recursive closing pass is the induction hypothesis")
     run.function("compiler.front_end.lr1.Grammar._parallel_goto", "pyvc: for item sets of real Item tuples, the goto of every symbol is the union of the closures of the advanced items; completed items contribute nothing; memoised closures are reused")
     run.function("compiler.front_end.lr1.Grammar._items", "pyvc: one iteration of its worklist loop: every goto set gets the number of the state with exactly that item set (an existing state is shared, equal new sets share one new state), "
                  "new states are appended once in sorted-symbol order, the no-duplicates / inverse-index-map invariant is re-established")
@@ -440,6 +443,9 @@ def main(args):
     run.function("compiler.front_end.lr1.Grammar.parser", "pyvc: the body of `for item in item_sets[i]` executed symbolically from any row state: the entry demanded by the item is stored, a Conflict is recorded iff a different "
                  "entry was present, nothing else is written; the statements after the loops write neither action nor conflicts (syntactic frame)")
     run.assume(*core.STANDING_ASSUMPTIONS["E1"])
+    run.assume("Grammar._closure_of_item contract: the ghost grammar's tables (_productions_by_lhs, _item_cache, memo tables) are built by the contract; attributes it does not specify are taken from an object built by the real "
+               "constructor; _first and the recursive call are callee contracts (FIRST of a string from an independently computed table; the closure of the argument, memoised); the six grammars are a finite family - "
+               "grammars of other shapes are covered by the bounded Earley comparison only")
     run.assume("Grammar.parser step contract: actions are compared as (kind, production / target state) tuples with symbolic identities; the induction over the items of a state and over states (conflicts == {} implies "
                "every demanded action is in the table and unique) is a paper step; item sets and goto come from _items (closure contract + bounded part)")
     gs = structural_grammars() + list(small_grammars())
